@@ -204,3 +204,21 @@ Proof.
   { apply lbeq_eq in E9. subst w. split; reflexivity. }
   reflexivity.
 Qed.
+
+Lemma command_of_str_err : forall s e, command_of_str s = Err e -> e = EHandshake \/ e = EInvalidGuid.
+Proof.
+  intros s e. unfold command_of_str.
+  destruct (split_ascii_whitespace s) as [|w args]; [intro H; injection H as <-; auto|].
+  repeat match goal with
+         | |- context [if ?c then _ else _] => destruct c
+         end;
+  repeat match goal with
+         | |- context [match ?l with [] => _ | _ :: _ => _ end] => destruct l
+         end;
+  unfold mech_of_str, hex_decode;
+  repeat match goal with
+         | |- context [if ?c then _ else _] => destruct c
+         | |- context [match bytes_of_hex ?h with _ => _ end] => destruct (bytes_of_hex h)
+         end;
+  cbn; intro H; try discriminate; injection H as <-; auto.
+Qed.
